@@ -8,8 +8,9 @@ import warnings
 HERE = os.path.dirname(os.path.dirname(os.path.abspath(__file__)))
 if HERE not in sys.path:
     sys.path.insert(0, HERE)
-if "/repo" not in sys.path:
-    sys.path.insert(0, "/repo")
+REPO = os.environ.get("VERIF_REPO", "/repo")  # scratch copies only during development
+sys.path[:] = [p for p in sys.path if p != "/repo"]
+sys.path.insert(0, REPO)
 warnings.simplefilter("ignore")
 
 
